@@ -454,8 +454,11 @@ def judge(inst, out, stats):
         added = None
         n_try = 0
         for U in offered:
-            if cur.get(U) is not None or plan.get(U) == "cancel":
+            if cur.get(U) is not None:
                 continue
+            # a task answered with a cancellation is a task the plan does without: if
+            # it could still be added the plan is not maximal (a task that really cannot
+            # meet its deadline any more cannot be added either, so it is never flagged)
             t = F["tasks"][U]
             for w in sorted(F["workers"]):
                 for sidx in range(len(t["strategies"])):
